@@ -231,3 +231,53 @@ def _path_to(root, node):
         return False
     rec(root, [])
     return out
+
+
+# ------------------------------------------------------------------------------ R6: exceptions
+def escaping_raises(interp, summ: Summary, _caught=()):
+    """(event, chain, exception names) of explicit raises that can leave the entry point: raises not matched by a
+    handler in their own frame nor by a handler enclosing any call on the chain."""
+    out = []
+
+    def rec(s: Summary, chain, handlers):
+        for ev in s.events:
+            if ev.kind == "raise" and not ev.caught:
+                names = [x for x in ev.exc if not any(interp.exc_matches(x, h) for h in handlers)]
+                if names:
+                    out.append((ev, chain, tuple(names)))
+            if ev.kind == "call" and ev.sub is not None:
+                hs = list(handlers)
+                for part in (ev.note or "").split("|"):
+                    if part.startswith("caught:"):
+                        lst = part[len("caught:"):].split(",")
+                        hs.append(None if lst == ["*"] else lst)
+                rec(ev.sub, chain + (ev.site,), hs)
+    rec(summ, (), list(_caught))
+    return out
+
+
+def short_exc(name: str) -> str:
+    return name.rsplit(".", 1)[-1]
+
+
+def check_escapes(ob, rule, oblig, fi, summ, allowed, what_entry, finding_roles=None):
+    """Every explicit raise that can escape `fi` is of a documented class."""
+    esc = escaping_raises(ob.eng.interp, summ)
+    seen = set()
+    n = 0
+    for ev, chain, names in esc:
+        for nm in names:
+            sn = short_exc(nm)
+            key = (ev.site.func, sn)
+            if key in seen:
+                continue
+            seen.add(key)
+            n += 1
+            if sn in allowed or sn == "<reraise>":
+                ob.rep.holds(rule, oblig, ev.site.func, "raise:" + sn, "explicit raise of the documented %s" % sn,
+                             site=ev.site.to_json())
+            else:
+                ob.rep.violation(rule, oblig, ev.site.func, "raise:" + sn,
+                                 "%s can leave %s, documented: %s" % (sn, what_entry, ", ".join(sorted(allowed)) or "none"),
+                                 site=ev.site.to_json(), path=[str(c) for c in chain])
+    return n
